@@ -139,7 +139,7 @@ impl WorldB {
         match rng.weighted(&w) {
             0 => Op::new(K_NEWCLIENT, slot as u64, rng.below(8), self.pick_variant(rng), rng.below(16)),
             1 => Op::new(K_TICKCLIENT, slot as u64, self.pick_dt(rng), 0, 0),
-            2 => Op::new(K_TICKSERVER, self.pick_dt(rng), if rng.chance(1, 4) { 1 } else { 0 }, 0, 0),
+            2 => Op::new(K_TICKSERVER, self.pick_dt(rng), if rng.chance(1, 4) { 1 } else if rng.chance(1, 6) { 2 } else { 0 }, 0, 0),
             3 => {
                 let keep = if dup > 0 && rng.below(100) < dup { 1 } else { 0 };
                 Op::new(K_DELIVER, slot as u64, dir as u64, self.pool_index(rng, in_flight), keep)
